@@ -39,6 +39,10 @@ def directed(rng):
         add('cancel-before-start-%s' % cc, cc, [A, ns(1), dict(a='ctxcancel'), asg(1), D, dict(a='acceptfail', kind='closing'), D])
         add('connerr-%s' % cc, cc, [A, A, ns(1), ns(2), asg(1), asg(2), D, dict(a='call', c=1), D, dict(a='connerr', c=1), D, dict(a='hret', c=1), D, dict(a='connerr', c=2), D,
                                     dict(a='acceptfail', kind='closing'), D])
+        # the context ends at moments when Loop is not waiting in Accept: before it starts, and between two calls of Accept
+        add('cancel-at-once-%s' % cc, cc, [dict(a='ctxcancel'), D] + ([A, D, ns(1), asg(1), D, dict(a='clientclose', c=1), D, dict(a='acceptfail', kind='closing'), D] if not cc else []))
+        add('cancel-between-accepts-%s' % cc, cc, [A, ns(1), asg(1), D, dict(a='accept', kind='cancelafter'), D, ns(2), asg(2), D, dict(a='clientclose', c=1), dict(a='clientclose', c=2), D,
+                                                   dict(a='acceptfail', kind='closing'), D])
         add('three-%s' % cc, cc, [A, A, A, ns(1), ns(2), ns(3), asg(2, False), asg(1), asg(3), D, dict(a='clientclose', c=3), dict(a='call', c=1), D, dict(a='acceptfail', kind='other'), dict(a='hret', c=1), dict(a='clientclose', c=1), D])
     return out
 
